@@ -4,6 +4,7 @@ import Blue.Proofs.DamageExamples
 import Blue.Proofs.LogTrunc
 import Blue.Proofs.LogAny
 import Blue.Proofs.LogDamage
+import Blue.Proofs.LogZeroed
 import Blue.Proofs.ManiTorn
 import Blue.Proofs.BlockBytes
 import Blue.Proofs.Crc32c
@@ -33,8 +34,10 @@ single-bit flip, every truncation, overwrites, suffixes, short sequences).
   file size first.
 * *Theorems, no assumption*: every entry any SST read returns comes from a block whose payload
   matched the CRC recorded for it (`sst_reads_are_guarded`, `open_guarded`); log reads before a damage
-  point are unchanged, a frame failing its CRC is an error, a truncated log / manifest reads as a
-  prefix or an error; the classification of damage to the unchecksummed tail (`final_block_cases`);
+  point are unchanged, a frame failing its CRC is an error, a zero where a header length is expected
+  is padding only if every byte up to the block boundary is zero, so a frame whose header-length
+  byte was zeroed is an error wherever it lies (`zeroed_header_length_detected`; D-11, repaired in
+  the reader), a truncated log / manifest reads as a prefix or an error; the classification of damage to the unchecksummed tail (`final_block_cases`);
   damage confined to the data blocks leaves the open as it was (`data_block_damage_opens`).
 * *Relative to "the CRC tells the damaged payload from the original"* (hypothesis `hnc` of
   `refines_of_no_collision`, `NoCollision` of `torn_manifest`): every read of a table damaged behind
@@ -43,7 +46,9 @@ single-bit flip, every truncation, overwrites, suffixes, short sequences).
   difference of the two CRCs is the remainder of a monomial, and the generator has a constant term —
   and the run observes it at every bit of every file; it is not formalised.)
 * *Not detected, by design of the formats* (findings, see the run's KNOWN-FINDING lines):
-  `final_block_metadata_not_detected` (D-10), `zero_length_is_padding` (D-11). -/
+  `final_block_metadata_not_detected` (D-10).  (D-11 — the log reader took a zeroed header-length
+  byte close to a block boundary for padding and dropped the frame — is repaired:
+  `zero_length_is_padding_as_found` keeps the reader as it was found on record.) -/
 namespace Blue.Props.C09
 open Blue.SstOpen Blue.Block Blue.Sst
 
@@ -236,14 +241,72 @@ theorem readSome_take_prefix {P : Params} (file : List Nat) (n fuel off : Nat) :
   Blue.Log.readSome_take_prefix file n fuel off
 
 open Blue.Log in
-/-- **D-11's mechanism**: a zero where a header length is expected is padding when the next block
-    boundary is at most `HEADER_MAX_SIZE` bytes away — the reader goes on at the boundary whatever
-    lies in between, e.g. a whole small frame whose length byte was overwritten with zero; farther
-    from the boundary the same zero is an error -/
-theorem zero_length_is_padding (P : Params) (file : List Nat) (fuel off : Nat) (h0 : file[off]? = some 0) :
+/-- **a zero where a header length is expected is padding only if everything up to the block
+    boundary is zero**: within `HEADER_MAX_SIZE` of the boundary the reader reads the bytes it is
+    about to skip and goes on at the boundary when those the file has are all zero; farther from
+    the boundary the zero is an error -/
+theorem zero_length_is_checked_padding (P : Params) (file : List Nat) (fuel off : Nat) (h0 : file[off]? = some 0) :
     nextHeader P file (fuel + 1) off =
-      if trueUp P (off + 1) - (off + 1) > P.H then .err else nextHeader P file fuel (trueUp P (off + 1)) :=
-  Blue.Damage.zero_length_is_padding P file fuel off h0
+      if trueUp P (off + 1) - (off + 1) > P.H then .err
+      else if !padZero file (off + 1) (trueUp P (off + 1)) then .err
+      else nextHeader P file fuel (trueUp P (off + 1)) :=
+  Blue.Damage.zero_length_is_checked_padding P file fuel off h0
+
+open Blue.Log in
+/-- … so a zero length byte followed by any non-zero byte before the boundary is an error -/
+theorem zero_length_then_nonzero_is_error (P : Params) (file : List Nat) (fuel off i x : Nat)
+    (h0 : file[off]? = some 0) (hi1 : off + 1 ≤ i) (hi2 : i < trueUp P (off + 1))
+    (hx : file[i]? = some x) (hx0 : x ≠ 0) :
+    nextHeader P file (fuel + 1) off = .err :=
+  Blue.Damage.zero_length_then_nonzero_is_error P file fuel off i x h0 hi1 hi2 hx hx0
+
+open Blue.Log in
+/-- **zeroed_header_length_detected** (D-11 repaired): in the log of any appended batches, overwrite
+    with zero the header-length byte of the frame (the first frame, if it was split) of any one
+    append — wherever it lies relative to the block boundaries, after padding or not: the reader
+    delivers exactly the batches appended before it and then reports an error.  `BigTag`: the packed
+    header starts with a byte larger than `HEADER_MAX_SIZE` (the tag of its first field). -/
+theorem zeroed_header_length_detected {P : Params} (g : Good P) (hbig : BigTag P)
+    (bufs1 : List (List Nat)) (b : List Nat) (bufs2 : List (List Nat))
+    (hsz : ∀ x ∈ bufs1, x.length ≤ P.tableFull) (k : Nat) :
+    readSome P ((writeAll P (bufs1 ++ b :: bufs2) 0).set (headOff P (writeAll P bufs1 0).length b) 0)
+      (bufs1.length + 1 + k) 0 = (bufs1, true) :=
+  Blue.Log.zeroed_header_length_detected g hbig bufs1 b bufs2 hsz k
+
+open Blue.Log Blue.Damage in
+/-- … and with the real log's parameters, through the replay: `LogIterator` drained delivers the
+    entries of the earlier batches and an error, `log_to_builder` and `log_to_setsum` fail -/
+theorem zeroed_header_length_replay_fails (crc : List Nat → Nat) (hcrc : ∀ l, crc l < 4294967296)
+    (bufs1 : List (List Nat)) (b : List Nat) (bufs2 : List (List Nat))
+    (hsz : ∀ x ∈ bufs1, x.length ≤ (realParams crc).tableFull) :
+    drain (realParams crc) ((writeAll (realParams crc) (bufs1 ++ b :: bufs2) 0).set
+        (headOff (realParams crc) (writeAll (realParams crc) bufs1 0).length b) 0) = deliver bufs1 true
+    ∧ logToBuilder (realParams crc) ((writeAll (realParams crc) (bufs1 ++ b :: bufs2) 0).set
+        (headOff (realParams crc) (writeAll (realParams crc) bufs1 0).length b) 0) = .readerError
+    ∧ logToSetsumOk (realParams crc) ((writeAll (realParams crc) (bufs1 ++ b :: bufs2) 0).set
+        (headOff (realParams crc) (writeAll (realParams crc) bufs1 0).length b) 0) = false :=
+  Blue.Damage.zeroed_header_length_replay_fails (realParams crc) (good_real crc hcrc) (bigTag_real crc)
+    bufs1 b bufs2 hsz
+
+open Blue.Log in
+/-- **D-11 as found** (`nextHeaderAsFound`: the reader before the repair): a zero where a header
+    length is expected was padding whenever the next block boundary was at most `HEADER_MAX_SIZE`
+    bytes away — the reader went on at the boundary whatever lay in between, e.g. a whole small
+    frame whose length byte was overwritten with zero -/
+theorem zero_length_is_padding_as_found (P : Params) (file : List Nat) (fuel off : Nat) (h0 : file[off]? = some 0) :
+    Blue.Damage.nextHeaderAsFound P file (fuel + 1) off =
+      if trueUp P (off + 1) - (off + 1) > P.H then .err
+      else Blue.Damage.nextHeaderAsFound P file fuel (trueUp P (off + 1)) :=
+  Blue.Damage.zero_length_is_padding_as_found P file fuel off h0
+
+/-- … and on concrete bytes (blocks of 64 bytes, a frame of 20 bytes starting 20 bytes before the
+    boundary with its header-length byte zeroed, a frame on the boundary): as found the reader hands
+    out the header of the frame on the boundary as if nothing had been there, repaired it reports
+    an error -/
+theorem d11_as_found_vs_repaired :
+    Blue.Damage.nextHeaderAsFound Blue.Damage.toyParams Blue.Damage.toyZeroed 2 44 = .ok (⟨0, 1, 0⟩, 66)
+    ∧ Blue.Log.nextHeader Blue.Damage.toyParams Blue.Damage.toyZeroed 2 44 = .err :=
+  Blue.Damage.d11_as_found_vs_repaired
 
 /-! ## manifest -/
 open Blue.Mani in
@@ -272,6 +335,18 @@ example (crc : List Nat → Nat) (t : Opened) : Refines (t.loadIdx crc) (t.loadI
 /-- `final_block_cases` with `f' = f`: the hypotheses on the first `a` bytes hold trivially -/
 example (f : List Nat) : ∀ i, i < f.length → f[i]? = f[i]? := fun _ _ => rfl
 
+/-- `Good` and `BigTag` of `zeroed_header_length_detected` hold for the real log's parameters -/
+example (crc : List Nat → Nat) (hcrc : ∀ l, crc l < 4294967296) :
+    Blue.Log.Good (Blue.Log.realParams crc) ∧ Blue.Log.BigTag (Blue.Log.realParams crc) :=
+  ⟨Blue.Log.good_real crc hcrc, Blue.Log.bigTag_real crc⟩
+
+/-- `zero_length_then_nonzero_is_error`: blocks of 64 bytes, a zero length byte 20 bytes before the
+    boundary, a non-zero byte after it -/
+example : Blue.Log.nextHeader ⟨64, 19, 100, fun _ => [], fun _ => none, fun _ => 0⟩
+    (List.replicate 44 7 ++ [0, 9]) 1 44 = .err :=
+  Blue.Damage.zero_length_then_nonzero_is_error _ _ 0 44 45 9 (by decide) (by decide) (by decide) (by decide)
+    (by decide)
+
 /-- a flip below `a` is `Below a` -/
 example : (Blue.Damage.Dmg.flip 10 0).Below 197 := by show 10 < 197; decide
 
@@ -296,6 +371,11 @@ end Blue.Props.C09
 #print axioms Blue.Props.C09.crc_mismatch_is_error
 #print axioms Blue.Props.C09.truncated_log_prefix
 #print axioms Blue.Props.C09.readSome_take_prefix
-#print axioms Blue.Props.C09.zero_length_is_padding
+#print axioms Blue.Props.C09.zero_length_is_checked_padding
+#print axioms Blue.Props.C09.zero_length_then_nonzero_is_error
+#print axioms Blue.Props.C09.zeroed_header_length_detected
+#print axioms Blue.Props.C09.zeroed_header_length_replay_fails
+#print axioms Blue.Props.C09.zero_length_is_padding_as_found
+#print axioms Blue.Props.C09.d11_as_found_vs_repaired
 #print axioms Blue.Props.C09.torn_manifest
 #print axioms Blue.Props.C09.mani_line_guarded
